@@ -152,6 +152,19 @@ def gen_queries(rnd, corpus):
             return (a is None or v > a or (v == a and not sx)) and (b is None or v < b or (v == b and not ex))
         qs.append(("daterange %r..%r %s%s" % (a, b, sx, ex), query.DateRange("d", da, db, startexcl=sx, endexcl=ex),
                    lambda d, f=indate: f(d["n"])))
+    # span queries over single terms (a term's span is its position): SpanFirst, SpanNot (the excluded term may run out of
+    # postings before the kept one, or not exist), SpanOr, SpanCondition, and a span query as a clause of And
+    from whoosh.query import spans as sp
+    T = lambda w_: query.Term("t", w_)
+    for _ in range(2):
+        w_, k = rnd.choice(vocab), rnd.choice([0, 1, 2])
+        qs.append(("spanfirst %r limit=%d" % (w_, k), sp.SpanFirst(T(w_), limit=k), lambda d, w_=w_, k=k: w_ in d["t"][:k + 1]))
+        a_, b_ = rnd.choice(vocab), rnd.choice(vocab + ["zzz"])
+        qs.append(("spannot %r %r" % (a_, b_), sp.SpanNot(T(a_), T(b_)), lambda d, a_=a_, b_=b_: a_ in d["t"] and a_ != b_))
+        qs.append(("spanor %r %r" % (a_, b_), sp.SpanOr([T(a_), T(b_)]), lambda d, a_=a_, b_=b_: a_ in d["t"] or b_ in d["t"]))
+        qs.append(("spancondition %r %r" % (a_, b_), sp.SpanCondition(T(a_), T(b_)), lambda d, a_=a_, b_=b_: a_ in d["t"] and b_ in d["t"]))
+        qs.append(("andspan %r %r" % (w_, a_), query.And([sp.SpanFirst(T(w_), limit=k), T(a_)]),
+                   lambda d, w_=w_, k=k, a_=a_: w_ in d["t"][:k + 1] and a_ in d["t"]))
     qs.append(("every t", query.Every("t"), lambda d: True))
     qs.append(("every", query.Every(), lambda d: True))
     return qs
@@ -192,6 +205,13 @@ def check_corpus(corpus, rnd, fails, counts):
                                 fails.append({"case": "C01-limit-%s/%s" % (path, kind), "detail": "%s: search(limit=%d, %s) -> %r but the matching documents are %r"
                                               % (name, lim, path, hits, exp), "corpus": corpus})
                                 break
+                    # ---- C15: estimate_size() is an upper bound of the match count, for every query kind
+                    try:
+                        est = q.estimate_size(s.reader())
+                        if est < len(exp):
+                            fails.append({"case": "C15-estimate/%s" % kind, "detail": "%s: estimate_size() = %r but %d documents match" % (name, est, len(exp)), "corpus": corpus})
+                    except Exception as e:
+                        fails.append({"case": "C15-estimate/%s" % kind, "detail": "%s: estimate_size() raised %s: %s" % (name, type(e).__name__, e), "corpus": corpus})
                     # ---- C11: the query's own matcher obeys the cursor protocol (span, phrase, multi-term and range
                     # matchers are wrappers the algebraic kinds of matchers-bounded never build)
                     def ids_of(m_, cap=200):
